@@ -433,5 +433,15 @@ def r10_caught_interrupt_is_reported(chk: Check) -> None:
         chk.undecided("C11.R10", "<discovery>", f"handlers={n}", "fewer KeyboardInterrupt handlers than confirmed by hand")
 
 
+def r11_memo(chk: Check) -> None:
+    from . import shared
+
+    P = chk.project
+    mods = ('engine/core.py', 'engine/events.py', 'engine/phases/__init__.py', 'engine/phases/unit/__init__.py', 'engine/phases/unit/_pool.py', 'engine/phases/unit/_executor.py', 'engine/phases/stateful/__init__.py', 'engine/phases/stateful/_executor.py', 'engine/phases/probes.py', 'cli/commands/run/handlers/output.py')
+    fns = [f for m in mods if m in P.by_relpath for f in P.module(m).functions.values() if not isinstance(f.node, ast.Lambda)]
+    shared.memo_key_rule(chk, "C11.R11", fns, {("_set_cache_entry", "data"): "a setter: the value to store is handed in by get(), which computed it for this key", ("_get_body_strategy", "operation"): "a parameter belongs to exactly one operation (stated next to the cache)"},
+                         "MEMO-KEY(anchor modules of this property): events are produced per phase / suite / scenario: a cache keyed by less replays another scope's event data", floor=0)
+
+
 def rules(tier: str) -> list:  # type: ignore[type-arg]
-    return [r1r2_grammar, r2b_state_machine_hooks, r3_ids, r4_status, r5_phase_dispatch, r7_drain, r8_consumer_total_over_statuses, r9_probe_total, r10_caught_interrupt_is_reported]
+    return [r1r2_grammar, r2b_state_machine_hooks, r3_ids, r4_status, r5_phase_dispatch, r7_drain, r8_consumer_total_over_statuses, r9_probe_total, r10_caught_interrupt_is_reported, r11_memo]
